@@ -63,6 +63,26 @@ class Est:
     def take(self, q, k):
         self._out("take", q, k)
 
+    def make_mut_field(self, q, k):
+        """`Rc::make_mut` in place on the k-th handle stored in the object of root q (the slot moves to the end)"""
+        self.ops.append(f"makeMutField {q} {k}")
+        if self.roots:
+            o = self.roots[q % len(self.roots)]
+            h = self.held.setdefault(o, [])
+            if h:
+                t = h[k % len(h)]
+                if t == o:
+                    return
+                h.pop(k % len(h))
+                shared = self.roots.count(t) + sum(x.count(t) for x in self.held.values()) > 0 or t in self.wroots
+                if shared:
+                    # cloned or stolen: a fresh allocation (estimate)
+                    self.held[self.nobj] = list(self.held.get(t, []))
+                    h.append(self.nobj)
+                    self.nobj += 1
+                else:
+                    h.append(t)
+
     def downgrade(self, r):
         self.ops.append(f"downgrade {r}")
         if self.roots:
@@ -199,6 +219,8 @@ def mix(rng, e, n, alphabet):
             e.unlink(r, rng.randrange(3))
         elif op == "take":
             e.take(r, rng.randrange(3))
+        elif op == "makeMutField":
+            e.make_mut_field(r, rng.randrange(3))
         elif op == "downgrade":
             e.downgrade(r)
         elif op == "upgrade":
@@ -251,12 +273,13 @@ CONTRACT_ALPHA = (
 )
 RAW_ALPHA = CONTRACT_ALPHA + ["adopt"] * 3 + ["adoptSame", "unadoptSame", "take", "take", "store", "unadopt",
                              "tryUnwrap", "makeMut", "downgrade"]
-API_ALPHA = ["tryUnwrap"] * 3 + ["makeMut"] * 3 + ["getMut", "intoRaw", "intoRaw", "fromRaw", "fromRaw", "incStrong",
+API_ALPHA = ["tryUnwrap"] * 3 + ["makeMut"] * 3 + ["makeMutField"] * 3 + ["getMut", "intoRaw", "intoRaw", "fromRaw", "fromRaw", "incStrong",
              "decStrong", "decStrong", "dropValue", "clone", "drop", "drop", "downgrade", "downgrade", "cloneWeak",
              "dropWeak", "link", "unlink", "counts", "wcounts", "upgrade", "take", "store", "store"]
 NOADOPT_ALPHA = ["new", "clone", "clone", "drop", "drop", "drop", "store", "store", "take", "downgrade", "downgrade",
                  "upgrade", "upgrade", "cloneWeak", "dropWeak", "dropWeak", "storeWeak", "tryUnwrap", "dropValue",
-                 "makeMut", "getMut", "intoRaw", "fromRaw", "incStrong", "decStrong", "ptrEq", "counts", "wcounts"]
+                 "makeMut", "makeMutField", "makeMutField", "getMut", "intoRaw", "fromRaw", "incStrong", "decStrong", "ptrEq",
+                 "counts", "wcounts"]
 SCRIPT_ACTS = ["clone {r}", "drop {r}", "link {r} {q}", "unlink {r} 0", "downgrade {r}", "upgrade {w}", "dropWeak {w}",
                "upgradeField {k}", "downgradeField {k}", "downgradeField {k}", "counts {r}", "unadopt {r} {q}", "wcounts {w}",
                "cloneWeak {w}"]
@@ -343,6 +366,32 @@ def stream_giveup(seed, n, max_obj=4):
                     e.raw(f"storeWeak {len(e.wroots) - 1} {rng.randrange(max(1, len(e.roots)))}")
                     if e.wroots:
                         e.wroots.pop()
+        if rng.random() < 0.4:
+            # in-place variant: the program drops its own handles to the victim, all stored handles but one are taken
+            # out and dropped, and `make_mut` runs on the one that stays stored in its holder (contract intact)
+            holders = [h_ for h_ in range(k) if h_ != victim and victim in e.held.get(h_, [])]
+            if holders:
+                keep = rng.choice(holders)
+                for holder in range(k):
+                    while e.held.get(holder, []).count(victim) > (1 if holder == keep else 0):
+                        ih = e.find_root(holder)
+                        if ih is None:
+                            break
+                        kk = e.held[holder].index(victim)
+                        if rng.random() < 0.5:
+                            e.take(ih, kk)
+                        else:
+                            e.unlink(ih, kk)
+                while victim in e.roots:
+                    e.drop(e.roots.index(victim))
+                ih = e.find_root(keep)
+                if ih is not None and victim in e.held.get(keep, []):
+                    e.make_mut_field(ih, e.held[keep].index(victim))
+                mix(rng, e, rng.randint(0, 5), ["counts", "wcounts", "upgrade", "dropWeak", "clone", "drop", "drop", "unlink",
+                                               "take", "makeMutField", "shuffle"])
+                drop_all(rng, e, 1.0)
+                yield (f"giveup-{seed}-{i}-{shape}{k}-inplace", e.ops)
+                continue
         # take every stored handle to the victim out of its holders
         for holder in range(k):
             while victim in e.held.get(holder, []):
